@@ -22,7 +22,7 @@ def _store_names(t):
 
 
 class Resolver:
-    def __init__(self, model, fn, flow=True):
+    def __init__(self, model, fn, flow=True, inline=True):
         """flow=True: names are resolved through the definitions *reaching* the use (CFG-based
         reaching definitions); flow=False: through all definitions of the function."""
         self.m = model
@@ -30,6 +30,7 @@ class Resolver:
         self.defs = collections.defaultdict(list)  # name -> [(kind, node, path)]
         self._memo = {}
         self.flow = flow
+        self.inline = inline
         self.cfg = None
         self.selfname = fn.params[0] if (fn.cls and fn.is_method and not fn.is_staticmethod and fn.params) else None
         self._collect()
@@ -210,7 +211,7 @@ class Resolver:
             callee = self._callee(f, ft)
             if callee is not None:
                 args, kws = _positional(callee, args, kws, bound=not isinstance(f, ast.Name) or callee.name == "__init__")
-                inl = self._inline(callee, f, args, kws, _visiting, d)
+                inl = self._inline(callee, f, args, kws, _visiting, d) if self.inline else None
                 if inl is not None:
                     return inl
             return ("call", ft, tuple(args), tuple(kws))
